@@ -178,12 +178,13 @@ def obligations(tier):
                                             stubs=dict(hals_nnls=nn_stub("HALS", holder), fista=nn_stub("FISTA", holder), active_set_nnls=nn_stub("ASET", holder))),
                 tk_post, dict(order=N, core_solver=algo), "sign invariant preserved by a sweep and returned at every exit", side_nonzero=True)
     # ====================================================================== PARAFAC2 line search: iterates clipped on non-negative modes
-    for nnm in ([0], [2], [0, 2], (0, 2), {0, 2}, (2,), "all"):   # (the declaration may be a list, a tuple, a set - or the documented string 'all')
-        def setup(S):
+    for nnm in ([0], [2], [0, 2], (0, 2), {0, 2}, (2,), "all", [0, 1, 2], [1]):   # (the declaration may be a list, a tuple, a set - or the documented string 'all')
+        def setup(S, nnm=nnm):
             K = atom("K")
+            b_nn = nnm == "all" or 1 in nnm      # (the inner solver then keeps the projected-space factor of mode 1 non-negative: precondition on the incoming iterates)
             return dict(_S=S, Xs=[S.input(f"X{i}", [atom(f"J{i}"), K]) for i in range(2)], w=S.input("w", [R], nonneg=True),
-                        fs=[S.input("A", [2, R], nonneg=True), S.input("B", [R, R]), S.input("Cm", [K, R], nonneg=True)],
-                        fl=[S.input("Al", [2, R], nonneg=True), S.input("Bl", [R, R]), S.input("Cl", [K, R], nonneg=True)],
+                        fs=[S.input("A", [2, R], nonneg=True), S.input("B", [R, R], nonneg=b_nn), S.input("Cm", [K, R], nonneg=True)],
+                        fl=[S.input("Al", [2, R], nonneg=True), S.input("Bl", [R, R], nonneg=b_nn), S.input("Cl", [K, R], nonneg=True)],
                         P=[S.input(f"P{i}", [atom(f"J{i}"), R]) for i in range(2)], err=S.input("err", []), nrm=S.input("nrm", [], nonneg=True))
         def call(I, nnm=nnm):
             S = I["_S"]
@@ -195,7 +196,7 @@ def obligations(tier):
                     return ls.line_step(8, list(I["Xs"]), list(I["fl"]), I["w"], list(I["fs"]), list(I["P"]), I["err"])
             f, p, e = _noval(p2t, go)
             return list(f)
-        clipped = [0, 2] if nnm == "all" else sorted(nnm)     # (mode 1 cannot be constrained by the ALS algorithm, as documented: 'all' clips the modes that can)
+        clipped = [0, 1, 2] if nnm == "all" else sorted(nnm)     # (every mode the inner non-negative solver constrains - with 'all' also the projected-space factor of mode 1: an extrapolated iterate left outside that set makes the next sweep raise the error, C07)
         add("_parafac2:_BroThesisLineSearch.line_step", f"nn_modes={type(nnm).__name__} {nnm if nnm == 'all' else sorted(nnm)}", setup, call,
             lambda S, I, r, clipped=clipped: [(f"mode {m} of the iterate returned by the line search (accepted or rejected) >= 0", S.is_nonneg(r[m]), True) for m in clipped],
             dict(nn_modes=str(nnm)), "line-search iterates are clipped on the non-negative modes")
